@@ -23,6 +23,8 @@ func Main(args []string) int {
 	replay := fs.String("replay", "", "re-evaluate the obligation recorded in this violation file against the current tree")
 	matrixSeed := fs.String("matrix-seed", "", "dev: with -matrix, only this seeded change (directory name under /verif/seeded)")
 	matrix := fs.Bool("matrix", false, "dev: apply every confirmed seeded change as an overlay and run every property on it; prints which rules report it")
+	uncovered := fs.Bool("uncovered", false, "dev: after the run list the functions of the property's anchor files that no obligation refers to (by key or position)")
+	list := fs.String("list", "", "dev: after the run print every obligation whose key contains the value (rule, status, key, position)")
 	battery := fs.String("battery", "", "dev: run the overlay mutants of this property (all, or those whose id contains the value) and print caught/missed")
 	if err := fs.Parse(args); err != nil {
 		return 2
@@ -165,6 +167,16 @@ func Main(args []string) int {
 		return 0
 	}
 	c := run(p, hostCfg)
+	if *list != "" {
+		for _, o := range c.Obls {
+			if strings.Contains(o.Key, *list) {
+				fmt.Printf("%-10s %s @%s :: %s\n", o.Status, o.Key, o.Pos, o.Detail)
+			}
+		}
+	}
+	if *uncovered {
+		printUncovered(c, *prop)
+	}
 	if *replay != "" {
 		return replayObligation(c, *replay)
 	}
